@@ -20,6 +20,19 @@ pub struct GenericLightDataset<TI: TermIndex> {
     quads: BTreeSet<[TI::Index; 4]>,
 }
 
+#[cfg(feature = "verif_hooks")]
+impl<TI: GraphNameIndex> GenericLightDataset<TI> {
+    /// Verification hook: the term index of this dataset.
+    pub fn verif_terms(&self) -> &TI {
+        &self.terms
+    }
+    /// Verification hook: the raw index sets, by name.
+    pub fn verif_indexes(&self) -> Vec<(&'static str, Vec<Vec<usize>>)> {
+        let dump = |s: &BTreeSet<[TI::Index; 4]>| s.iter().map(|r| r.iter().map(|i| i.into_usize()).collect()).collect();
+        vec![("gspo", dump(&self.quads))]
+    }
+}
+
 impl<TI: GraphNameIndex + Default> GenericLightDataset<TI> {
     /// Construct an empty dataset
     pub fn new() -> Self {
@@ -207,6 +220,26 @@ pub struct GenericFastDataset<TI: GraphNameIndex> {
     spog: BTreeSet<[TI::Index; 4]>,
     posg: BTreeSet<[TI::Index; 4]>,
     ospg: BTreeSet<[TI::Index; 4]>,
+}
+
+#[cfg(feature = "verif_hooks")]
+impl<TI: GraphNameIndex> GenericFastDataset<TI> {
+    /// Verification hook: the term index of this dataset.
+    pub fn verif_terms(&self) -> &TI {
+        &self.terms
+    }
+    /// Verification hook: the raw index sets, by name.
+    pub fn verif_indexes(&self) -> Vec<(&'static str, Vec<Vec<usize>>)> {
+        let dump = |s: &BTreeSet<[TI::Index; 4]>| s.iter().map(|r| r.iter().map(|i| i.into_usize()).collect()).collect();
+        vec![
+            ("gspo", dump(&self.gspo)),
+            ("gpos", dump(&self.gpos)),
+            ("gosp", dump(&self.gosp)),
+            ("spog", dump(&self.spog)),
+            ("posg", dump(&self.posg)),
+            ("ospg", dump(&self.ospg)),
+        ]
+    }
 }
 
 impl<TI: GraphNameIndex + Default> GenericFastDataset<TI> {
